@@ -142,6 +142,19 @@ func runC17(env *Env, s Scenario) {
 
 		return platform.NewPlatform(sc.Platform, "host", o...)
 	}
+	// a variant loaded earlier in the same process must not change what the base name yields
+	if sc.Variant == "" && raw != nil {
+		var vs []string
+		for v := range raw.Variants {
+			vs = append(vs, v)
+		}
+		sort.Strings(vs)
+		for _, v := range vs {
+			if _, err := platform.NewPlatformVariant(sc.Platform, v, "host", userOpts...); err != nil {
+				fail("variant-does-not-load", "platform.NewPlatformVariant(%q, %q) failed: %v", sc.Platform, v, err)
+			}
+		}
+	}
 	p, err := build()
 	if err != nil {
 		fail("platform-does-not-load", "platform.NewPlatform(%q) failed: %v", sc.Platform, err)
@@ -215,6 +228,40 @@ func runC17(env *Env, s Scenario) {
 			}
 		}
 		env.Probe("variant:" + sc.Platform + "/" + sc.Variant)
+	}
+	if sc.Variant == "" && raw != nil {
+		// the base name yields exactly what its default section declares
+		if pl, ok := raw.Default["privilege-levels"].(map[string]interface{}); ok {
+			var dn []string
+			for n := range pl {
+				dn = append(dn, n)
+			}
+			sort.Strings(dn)
+			if strings.Join(dn, ",") != strings.Join(names, ",") {
+				fail("base-definition-altered", "definition declares levels %v, the driver built for the base name has %v", dn, names)
+			}
+			for _, n := range dn {
+				lv, _ := pl[n].(map[string]interface{})
+				if lv == nil || levels[n] == nil {
+					continue
+				}
+				for key, got := range map[string]string{"escalate": levels[n].Escalate, "deescalate": levels[n].Deescalate, "pattern": levels[n].Pattern, "previous-priv": levels[n].PreviousPriv} {
+					want, _ := lv[key].(string)
+					if want != got {
+						fail("base-definition-altered", "level %s %s: definition %q, driver %q", n, key, want, got)
+					}
+				}
+			}
+		}
+		if fw, ok := raw.Default["failed-when-contains"].([]interface{}); ok && len(sc.UserFailed) == 0 {
+			var want []string
+			for _, x := range fw {
+				want = append(want, fmt.Sprint(x))
+			}
+			if strings.Join(want, "|") != strings.Join(nd.FailedWhenContains, "|") {
+				fail("base-definition-altered", "definition failed-when-contains %v, driver has %v", want, nd.FailedWhenContains)
+			}
+		}
 	}
 	if len(sc.UserFailed) > 0 && strings.Join(nd.FailedWhenContains, "|") != strings.Join(sc.UserFailed, "|") {
 		fail("user-option-does-not-win", "user failed-when-contains %v, driver has %v", sc.UserFailed, nd.FailedWhenContains)
@@ -494,12 +541,13 @@ func runC17(env *Env, s Scenario) {
 	var openErr, closeErr error
 	var steps []step
 	openLog, closeLogStart := 0, 0
+	openMode := ""
 	closeReachable := true
 	done := env.Go("user", func() {
 		if !env.Call("Open", func() { openErr = nd.Open() }) || openErr != nil {
 			return
 		}
-		_, openLog = dev.State()
+		openMode, openLog = dev.State()
 		cur := nd.DefaultDesiredPriv
 		for _, wi := range sc.Walk {
 			t := names[wi%len(names)]
@@ -577,6 +625,19 @@ func runC17(env *Env, s Scenario) {
 		}
 	}
 	expectOps(onOpen, lines(0, openLog), "open")
+	for _, op := range onOpen {
+		if op["operation"] == platform.OpAcquirePriv {
+			want := nd.DefaultDesiredPriv
+			if tg, ok := op["target"].(string); ok {
+				want = tg
+			}
+			if class[openMode] != class[want] && openMode != want {
+				fail("on-open-steps-not-run", "on-open acquires level %s but after Open the device is at %s (it started at %s)", want, openMode, start)
+			}
+
+			break
+		}
+	}
 	for i, st := range steps {
 		if st.err != nil {
 			fail("level-not-reachable", "AcquirePriv(%s) (step %d) failed: %v", st.target, i, st.err)
